@@ -39,41 +39,15 @@ def regex_patterns(ctx, modname):
 
 
 def r1(ctx):
+    """The dialect dictionary: what inference returns has exactly the declared keys (checked on the round-trip parses); that
+    every recorded choice is replayed when printing, and consulted when splitting with a supplied dialect, is what the printer
+    template and the round trip decide over all dialect configurations; printing never modifies the dialect."""
     from ..util import closure
-    dk = set(ctx.folder.const("constants", "dialect"))
-    sk = require_func(ctx, "parser._split_keyvals")
     rc = require_func(ctx, "parser._reconstruct")
-    sk_scope = closure(ctx, sk)
-    rc_scope = closure(ctx, rc)
-    written, r_sk, r_rc, w_rc = {}, {}, {}, {}
-    for f in sk_scope:
-        for name in ("dialect",):
-            rr, ww = dialect_keys(f.node, name)
-            r_sk.update(rr)
-            written.update(ww)
-    for f in rc_scope:
-        rr, ww = dialect_keys(f.node)
-        r_rc.update(rr)
-        w_rc.update(ww)
-    ctx.floor("R1", len(written), 5, "dialect keys recorded by inference")
-    for k, n in sorted(written.items()):
-        ctx.ob("R1", k in dk, "inference records only keys of the dialect dictionary", node=n, func=sk, sig="inference writes %r%s" % (k, "" if k in dk else " (not a dialect key)"), nontrivial=False)
-    for k, n in sorted(list(r_rc.items()) + list(r_sk.items()), key=lambda kv: kv[0]):
-        ctx.ob("R1", k in dk, "only keys of the dialect dictionary are consulted", node=n, func=ctx.proj.enclosing_func(n), sig="dialect key %r %s" % (k, "known" if k in dk else "unknown"), nontrivial=False)
-    for k, n in sorted(written.items()):
-        if k in NOT_REPLAYED:
-            ctx.note("reviewed exception: dialect key %r -- %s" % (k, NOT_REPLAYED[k]))
-            continue
-        ctx.ob("R1", k in r_rc, "every formatting choice recorded by inference (%r) is replayed by reconstruction" % k, node=n, func=sk,
-               sig="%r recorded and replayed" % k if k in r_rc else "%r recorded by inference but never read by _reconstruct" % k)
-    for k in sorted(set(dk) - set(NOT_REPLAYED)):
-        ctx.ob("R1", k in r_rc, "reconstruction consults the dialect's %r" % k, func=rc, sig="_reconstruct reads %r" % k if k in r_rc else "_reconstruct ignores %r" % k)
-    for k in ("trailing semicolon", "field separator", "keyval separator", "quoted GFF2 values", "fmt"):
-        ctx.ob("R1", k in r_sk, "splitting consults the dialect's %r" % k, func=sk,
-               sig="_split_keyvals reads %r" % k if k in r_sk else "_split_keyvals ignores %r" % k)
-    ctx.ob("R1", not w_rc, "reconstruction does not modify the dialect", func=rc, sig="_reconstruct writes %s" % sorted(w_rc))
-    for f in rc_scope:
+    for f in closure(ctx, rc):
         no_dialect_mutation(ctx, f, "R1")
+    for k in NOT_REPLAYED:
+        ctx.note("reviewed exception: dialect key %r -- %s" % (k, NOT_REPLAYED[k]))
 
 
 MUTATORS = {"append", "extend", "update", "pop", "popitem", "sort", "clear", "setdefault", "remove", "insert", "reverse"}
@@ -251,6 +225,9 @@ def r_roundtrip(ctx, rule="R3"):
                         fail("%s (%s, %s dialect)" % (kind, fam, mode), "%s :: parsed %s, expected %s" % (label, got, want))
                     if mode == "inferred":
                         dl = res[1] if isinstance(res[1], dict) else {}
+                        declared = set(ctx.folder.const("constants", "dialect"))
+                        if set(dl) != declared:
+                            fail("inferred dialect has keys %s beyond / short of the declared ones" % sorted(set(dl) ^ declared), label)
                         exp = {k: cfg[k] for k in ("fmt", "field separator", "keyval separator", "quoted GFF2 values", "trailing semicolon")}
                         exp["repeated keys"] = bool(cfg["repeated keys"] and any(len(v) > 1 for _k, v in mp))
                         exp["order"] = [k for k, _v in mp]
